@@ -46,8 +46,15 @@ namespace
     typedef DenseVector<DT, IT> DV;
     typedef typename M::VectorTypeL VL; typedef typename M::VectorTypeR VR;
     const auto ops = apply_cases(true);
-    const std::vector<Variant> mvars = {{0, S_BASE}, {1, S_BASE}, {2, S_BASE}, {3, S_BASE}, {0, S_HIST}, {0, S_VIEW}, {0, S_CLONE_DEEP}, {0, S_CLONE_WEAK}, {0, S_MOVE}};
     const int nb = int(L.free.size());
+    // size classes: <= 8 pattern bits: all 9 variants; 9-10 bits: alphabets + history + views + weak clone;
+    // > 10 bits (the layouts with pairwise different block dimensions): quick = exact + rounding alphabet on fresh objects with entry-free empty blocks,
+    // thorough = alphabets + history + weak clone, both empty-block representations
+    const bool mid = (nb >= 9 && nb <= 10), big = (nb > 10), isd = std::is_same<DT, double>::value;
+    std::vector<Variant> mvars = {{0, S_BASE}, {1, S_BASE}, {2, S_BASE}, {3, S_BASE}, {0, S_HIST}, {0, S_VIEW}, {0, S_CLONE_DEEP}, {0, S_CLONE_WEAK}, {0, S_MOVE}};
+    if(mid) mvars = {{0, S_BASE}, {1, S_BASE}, {2, S_BASE}, {3, S_BASE}, {0, S_HIST}, {0, S_VIEW}, {0, S_CLONE_WEAK}};
+    if(big && !c.thorough && !isd) return; // quick: the large layouts with (double,u64) only
+    if(big) { if(c.thorough) mvars = {{0, S_BASE}, {1, S_BASE}, {2, S_BASE}, {3, S_BASE}, {0, S_HIST}, {0, S_CLONE_WEAK}}; else mvars = {{0, S_BASE}, {1, S_BASE}}; }
     for(uint64_t bits = 0; bits < (uint64_t(1) << nb); ++bits)
       for(int rep = 0; rep < 2; ++rep)
         for(int iface = 0; iface < (has_dense_iface ? 2 : 1); ++iface)
@@ -56,7 +63,9 @@ namespace
             {
               if(var.scenario == S_VIEW && iface == 0) continue; // sub-range views exist for DenseVector operands only
               if(var.scenario != S_BASE && rep == 1) continue;    // scenarios with one representation of empty blocks
-              if(var.scenario != S_BASE && !std::is_same<DT, double>::value) continue; // scenarios with (double,u64) only
+              if(var.scenario != S_BASE && !isd) continue; // scenarios with (double,u64) only
+              if(big && !c.thorough && rep == 1) continue;
+              if(!isd && ((big && var.alphabet != 0) || (mid && var.alphabet > 1))) continue;
               if(!c.want()) continue;
               set_extreme_exp<DT>();
               const int alphabet = var.alphabet;
@@ -211,6 +220,103 @@ namespace
       enum_meta<DT, IT, M, true>(c, L,
         [&](const DenseRef& D, int rep) { M A; A.block_a() = build_csr<DT, IT>(sub(D, 0, 2, 0, 2), rep); A.block_b() = build_csr<DT, IT>(sub(D, 0, 2, 2, 3), rep); A.block_d() = build_csr<DT, IT>(sub(D, 2, 3, 0, 2), rep); return A; },
         [&](const M& A, verif::Hash& h) { hl(A.block_a(), h); hl(A.block_b(), h); hl(A.block_d(), h); });
+    }
+    // ================= layouts with unequal / non-square sub-blocks: every slice offset of the flat interface is distinguishable =================
+    // ---- SaddlePointMatrix with a NON-SQUARE A block and pairwise different block dimensions (ra, ca, cb, rd)
+    for(int v = 0; v < 2; ++v)
+    {
+      typedef SaddlePointMatrix<CSR, CSR, CSR> M;
+      const int ra = v ? 2 : 1, ca = v ? 1 : 2, cb = v ? 3 : 4, rd = v ? 4 : 3;
+      Layout L; L.name = "SaddlePointMatrix<A" + std::to_string(ra) + "x" + std::to_string(ca) + ",B" + std::to_string(ra) + "x" + std::to_string(cb) + ",D" + std::to_string(rd) + "x" + std::to_string(ca) + ">";
+      L.m = ra + rd; L.n = ca + cb; L.block(0, ra, 0, ca); L.block(0, ra, ca, ca + cb); L.block(ra, ra + rd, 0, ca);
+      enum_meta<DT, IT, M, true>(c, L,
+        [&](const DenseRef& D, int rep) { M A; A.block_a() = build_csr<DT, IT>(sub(D, 0, ra, 0, ca), rep); A.block_b() = build_csr<DT, IT>(sub(D, 0, ra, ca, ca + cb), rep); A.block_d() = build_csr<DT, IT>(sub(D, ra, ra + rd, 0, ca), rep); return A; },
+        [&](const M& A, verif::Hash& h) { hl(A.block_a(), h); hl(A.block_b(), h); hl(A.block_d(), h); });
+    }
+    // ---- small SaddlePointMatrix with non-square A: A 1x2, B 1x1, D 2x2 (7 bits) / A 2x1, B 2x2, D 1x1 (7 bits): all variants
+    for(int v = 0; v < 2; ++v)
+    {
+      typedef SaddlePointMatrix<CSR, CSR, CSR> M;
+      const int ra = v ? 2 : 1, ca = v ? 1 : 2, cb = v ? 2 : 1, rd = v ? 1 : 2;
+      Layout L; L.name = "SaddlePointMatrix<A" + std::to_string(ra) + "x" + std::to_string(ca) + ",B" + std::to_string(ra) + "x" + std::to_string(cb) + ",D" + std::to_string(rd) + "x" + std::to_string(ca) + ">";
+      L.m = ra + rd; L.n = ca + cb; L.block(0, ra, 0, ca); L.block(0, ra, ca, ca + cb); L.block(ra, ra + rd, 0, ca);
+      enum_meta<DT, IT, M, true>(c, L,
+        [&](const DenseRef& D, int rep) { M A; A.block_a() = build_csr<DT, IT>(sub(D, 0, ra, 0, ca), rep); A.block_b() = build_csr<DT, IT>(sub(D, 0, ra, ca, ca + cb), rep); A.block_d() = build_csr<DT, IT>(sub(D, ra, ra + rd, 0, ca), rep); return A; },
+        [&](const M& A, verif::Hash& h) { hl(A.block_a(), h); hl(A.block_b(), h); hl(A.block_d(), h); });
+    }
+    // ---- TupleDiagMatrix and PowerDiagMatrix with two different rectangular blocks 1x3 and 2x4 (dimensions 1,3,2,4 pairwise different)
+    {
+      typedef TupleDiagMatrix<CSR, CSR> M;
+      Layout L; L.name = "TupleDiagMatrix<1x3,2x4>"; L.m = 3; L.n = 7; L.block(0, 1, 0, 3); L.block(1, 3, 3, 7);
+      enum_meta<DT, IT, M, true>(c, L,
+        [&](const DenseRef& D, int rep) { M A; A.template at<0, 0>() = build_csr<DT, IT>(sub(D, 0, 1, 0, 3), rep); A.template at<1, 1>() = build_csr<DT, IT>(sub(D, 1, 3, 3, 7), rep); return A; },
+        [&](const M& A, verif::Hash& h) { hl(A.template at<0, 0>(), h); hl(A.template at<1, 1>(), h); });
+    }
+    {
+      typedef PowerDiagMatrix<CSR, 2> M;
+      Layout L; L.name = "PowerDiagMatrix<blocks 1x3,2x4>"; L.m = 3; L.n = 7; L.block(0, 1, 0, 3); L.block(1, 3, 3, 7);
+      enum_meta<DT, IT, M, true>(c, L,
+        [&](const DenseRef& D, int rep) { M A; A.template at<0, 0>() = build_csr<DT, IT>(sub(D, 0, 1, 0, 3), rep); A.template at<1, 1>() = build_csr<DT, IT>(sub(D, 1, 3, 3, 7), rep); return A; },
+        [&](const M& A, verif::Hash& h) { hl(A.template at<0, 0>(), h); hl(A.template at<1, 1>(), h); });
+    }
+    {
+      typedef PowerDiagMatrix<CSR, 2> M;   // small: blocks 1x2 and 2x1 (all variants)
+      Layout L; L.name = "PowerDiagMatrix<blocks 1x2,2x1>"; L.m = 3; L.n = 3; L.block(0, 1, 0, 2); L.block(1, 3, 2, 3);
+      enum_meta<DT, IT, M, true>(c, L,
+        [&](const DenseRef& D, int rep) { M A; A.template at<0, 0>() = build_csr<DT, IT>(sub(D, 0, 1, 0, 2), rep); A.template at<1, 1>() = build_csr<DT, IT>(sub(D, 1, 3, 2, 3), rep); return A; },
+        [&](const M& A, verif::Hash& h) { hl(A.template at<0, 0>(), h); hl(A.template at<1, 1>(), h); });
+    }
+    // ---- PowerFullMatrix<CSR,2,2> with row heights (1,2) and column widths (2,1)
+    {
+      typedef PowerFullMatrix<CSR, 2, 2> M;
+      Layout L; L.name = "PowerFullMatrix<heights(1,2) widths(2,1)>"; L.m = 3; L.n = 3; L.all();
+      enum_meta<DT, IT, M, true>(c, L,
+        [&](const DenseRef& D, int rep) { M A;
+          A.template at<0, 0>() = build_csr<DT, IT>(sub(D, 0, 1, 0, 2), rep); A.template at<0, 1>() = build_csr<DT, IT>(sub(D, 0, 1, 2, 3), rep);
+          A.template at<1, 0>() = build_csr<DT, IT>(sub(D, 1, 3, 0, 2), rep); A.template at<1, 1>() = build_csr<DT, IT>(sub(D, 1, 3, 2, 3), rep); return A; },
+        [&](const M& A, verif::Hash& h) { hl(A.template at<0, 0>(), h); hl(A.template at<0, 1>(), h); hl(A.template at<1, 0>(), h); hl(A.template at<1, 1>(), h); });
+    }
+    // ---- PowerRowMatrix with different block widths: <2> 3 rows, widths (1,2); <3> 1 row, widths (2,3,4)
+    {
+      typedef PowerRowMatrix<CSR, 2> M;
+      Layout L; L.name = "PowerRowMatrix<3 rows, widths(1,2)>"; L.m = 3; L.n = 3; L.all();
+      enum_meta<DT, IT, M, true>(c, L,
+        [&](const DenseRef& D, int rep) { M A; A.template at<0, 0>() = build_csr<DT, IT>(sub(D, 0, 3, 0, 1), rep); A.template at<0, 1>() = build_csr<DT, IT>(sub(D, 0, 3, 1, 3), rep); return A; },
+        [&](const M& A, verif::Hash& h) { hl(A.template at<0, 0>(), h); hl(A.template at<0, 1>(), h); });
+    }
+    {
+      typedef PowerRowMatrix<CSR, 3> M;
+      Layout L; L.name = "PowerRowMatrix<1 row, widths(2,3,4)>"; L.m = 1; L.n = 9; L.all();
+      enum_meta<DT, IT, M, true>(c, L,
+        [&](const DenseRef& D, int rep) { M A; A.template at<0, 0>() = build_csr<DT, IT>(sub(D, 0, 1, 0, 2), rep); A.template at<0, 1>() = build_csr<DT, IT>(sub(D, 0, 1, 2, 5), rep);
+          A.template at<0, 2>() = build_csr<DT, IT>(sub(D, 0, 1, 5, 9), rep); return A; },
+        [&](const M& A, verif::Hash& h) { hl(A.template at<0, 0>(), h); hl(A.template at<0, 1>(), h); hl(A.template at<0, 2>(), h); });
+    }
+    // ---- PowerColMatrix with different block heights: <2> 3 columns, heights (1,2); <3> 1 column, heights (2,3,4)
+    {
+      typedef PowerColMatrix<CSR, 2> M;
+      Layout L; L.name = "PowerColMatrix<3 columns, heights(1,2)>"; L.m = 3; L.n = 3; L.all();
+      enum_meta<DT, IT, M, true>(c, L,
+        [&](const DenseRef& D, int rep) { M A; A.template at<0, 0>() = build_csr<DT, IT>(sub(D, 0, 1, 0, 3), rep); A.template at<1, 0>() = build_csr<DT, IT>(sub(D, 1, 3, 0, 3), rep); return A; },
+        [&](const M& A, verif::Hash& h) { hl(A.template at<0, 0>(), h); hl(A.template at<1, 0>(), h); });
+    }
+    {
+      typedef PowerColMatrix<CSR, 3> M;
+      Layout L; L.name = "PowerColMatrix<1 column, heights(2,3,4)>"; L.m = 9; L.n = 1; L.all();
+      enum_meta<DT, IT, M, true>(c, L,
+        [&](const DenseRef& D, int rep) { M A; A.template at<0, 0>() = build_csr<DT, IT>(sub(D, 0, 2, 0, 1), rep); A.template at<1, 0>() = build_csr<DT, IT>(sub(D, 2, 5, 0, 1), rep);
+          A.template at<2, 0>() = build_csr<DT, IT>(sub(D, 5, 9, 0, 1), rep); return A; },
+        [&](const M& A, verif::Hash& h) { hl(A.template at<0, 0>(), h); hl(A.template at<1, 0>(), h); hl(A.template at<2, 0>(), h); });
+    }
+    // ---- TupleMatrix 2x2 with block rows (2,1) and block columns (1,3): dimensions 2,1,1,3 (native interface only: no slice offsets)
+    {
+      typedef TupleMatrix<TupleMatrixRow<CSR, CSR>, TupleMatrixRow<CSR, CSR>> M;
+      Layout L; L.name = "TupleMatrix<rows(2,1) cols(1,3)>"; L.m = 3; L.n = 4; L.all();
+      enum_meta<DT, IT, M, false>(c, L,
+        [&](const DenseRef& D, int rep) { M A;
+          A.template at<0, 0>() = build_csr<DT, IT>(sub(D, 0, 2, 0, 1), rep); A.template at<0, 1>() = build_csr<DT, IT>(sub(D, 0, 2, 1, 4), rep);
+          A.template at<1, 0>() = build_csr<DT, IT>(sub(D, 2, 3, 0, 1), rep); A.template at<1, 1>() = build_csr<DT, IT>(sub(D, 2, 3, 1, 4), rep); return A; },
+        [&](const M& A, verif::Hash& h) { hl(A.template at<0, 0>(), h); hl(A.template at<0, 1>(), h); hl(A.template at<1, 0>(), h); hl(A.template at<1, 1>(), h); });
     }
     // ---- nested: SaddlePointMatrix<PowerDiag<CSR,2>, PowerCol<CSR,2>, PowerRow<CSR,2>> (the Stokes structure), blocks: A 1x1, B 1x2, D 2x1
     {
